@@ -15,10 +15,11 @@ s=re.sub(r'<<<<<<< HEAD\n(.*?)=======\n(.*?)>>>>>>> [\w-]+\n', lambda m: m.group
 open(p,'w').write(s)
 PY
     ;;
-    *) echo "UNRESOLVED: $f";;
+    *) echo "UNRESOLVED: $f"; UNRES=1;;
   esac
 done
 python3 tools/merge_plan.py $br >/dev/null
+if [ -n "$UNRES" ]; then echo "resolve the files above, then: git add -A && git commit"; exit 1; fi
 git add -A
 git diff --cached --quiet || git commit -qm "merge $br"
 git worktree remove --force /tmp/vw-${br#w-} 2>/dev/null || true
